@@ -8,6 +8,7 @@ import (
 	"os"
 	"path/filepath"
 	"regexp"
+	"runtime/pprof"
 	"sort"
 	"strings"
 	"sync"
@@ -77,8 +78,15 @@ func cmdCheck(args []string) int {
 	replayDir := fs.String("replays", "/verif/replays", "directory for replay files")
 	timeout := fs.Int("timeout", 0, "per-obligation solver timeout in seconds (default: 20 quick, 120 thorough)")
 	verbose := fs.Bool("v", false, "verbose")
+	cpuprof := fs.String("cpuprofile", "", "write a CPU profile of the run (development aid)")
 	jobs := fs.Int("j", 8, "parallel solver races")
 	fs.Parse(args)
+	if *cpuprof != "" {
+		if f, err := os.Create(*cpuprof); err == nil {
+			pprof.StartCPUProfile(f)
+			defer pprof.StopCPUProfile()
+		}
+	}
 	t0 := time.Now()
 	seed := 0
 	if s := os.Getenv("VERIF_SEED"); s != "" {
